@@ -101,6 +101,9 @@ def run(ctx):
             ctx.count("targets:" + t["cls"])
             if t["cls"] != "boundary":
                 ctx.nontrivial.add((repr(st["sys"]), tuple(t["b"])))
+    # code -> spec: recorded calls on random lattice systems outside the curated families, recomputed by TLC
+    from .. import sysdriver
+    sysdriver.run_trace(ctx, "inhull", "C03", 16, 40 if thorough else 12)
     ctx.traces += len(sts)
     ctx.extra["boundary_targets_reported_in"] = bnd_true
     for st in sts[:: max(1, len(sts) // 3)][:3]:
